@@ -81,11 +81,15 @@ def main(tier):
     try:
         quick = tier == "quick"
         rng = core.rng("c17")
-        r = core.tlc_must_pass("Expr", "Expr.cfg" if quick else "ExprThorough.cfg", heap="12g", timeout=2400)
-        rep.add_tlc("Expr (mechanism = Eval for all trees and valuations; negations pushed down)", r)
-        trees = [core.parse_print(x) for x in r.prints]
-        trees = [t for t in trees if t and "t" in t]
-        r.prints = []
+        trees = []
+        # quick: every tree of <= 3 leaves over 3 atoms (7,062); thorough: <= 4 leaves (428,844; four-leaf trees are grown by Next from seed
+        # states so that TLC's workers share them -- as initial states they did not finish in an hour)
+        for cfgname in (("Expr.cfg",) if quick else ("ExprThorough.cfg",)):
+            r = core.tlc_must_pass("Expr", cfgname, heap="12g", timeout=5400)
+            rep.add_tlc("Expr (%s: mechanism = Eval for all trees and valuations; negations pushed down)" % cfgname, r)
+            ts = [core.parse_print(x) for x in r.prints]
+            trees += [t for t in ts if t and "t" in t]
+            r.prints = []
         o = core.tlc("Expr", "ExprOld.cfg", workers=8, keep_prints=False, timeout=600)
         if "Refines" not in o.violated:
             raise core.MachineryError("negative control failed: pinned dexpr mechanism not refuted")
